@@ -93,9 +93,59 @@ class ScriptedLock:
         return self.held
 
 
+HEAD = 5      # reserved bytes at the head of the buffer of the `bufhead` protocol
+VIEW = 8      # size of the write view behind it
+
+
+def _head_room_serializer():
+    """user-defined buffered serializer (documented extension point): SEP-terminated frames accumulated BEHIND a reserved head
+    area of HEAD bytes: the generator yields a NON-ZERO start position, so the write view handed to recv_into() is smaller
+    than the whole buffer"""
+    from easynetwork.exceptions import LimitOverrunError
+    from easynetwork.serializers.abc import BufferedIncrementalPacketSerializer
+
+    class HeadRoomSep(BufferedIncrementalPacketSerializer):  # type: ignore[type-arg]
+        def serialize(self, packet):
+            return bytes(packet)
+
+        def deserialize(self, data):
+            return bytes(data)
+
+        def incremental_serialize(self, packet):
+            yield bytes(packet) + SEP
+
+        def incremental_deserialize(self):
+            buf = b""
+            while SEP not in buf:
+                buf += yield
+            a, _, b = buf.partition(SEP)
+            return a, b
+
+        def create_deserializer_buffer(self, sizehint):
+            return bytearray(HEAD + VIEW)
+
+        def buffered_incremental_deserialize(self, buffer):
+            # a small fixed receive buffer consumed chunk by chunk: what arrives behind the head area is moved to the
+            # parser's own accumulator, the next read goes to the same place again
+            acc = bytearray()
+            while True:
+                n = yield HEAD
+                with memoryview(buffer) as mv:
+                    acc += mv[HEAD:HEAD + n]
+                idx = acc.find(SEP)
+                if idx >= 0:
+                    return bytes(acc[:idx]), bytes(acc[idx + len(SEP):])
+                if len(acc) >= LIMIT:
+                    raise LimitOverrunError("frame too long", bytes(acc), len(acc))
+
+    return HeadRoomSep()
+
+
 def make_protocol(path: str):
     from easynetwork.protocol import BufferedStreamProtocol, StreamProtocol
 
+    if path == "bufhead":
+        return BufferedStreamProtocol(_head_room_serializer())
     ser = sers.RawAutoSep(SEP, limit=LIMIT)
     return BufferedStreamProtocol(ser) if path == "buffered" else StreamProtocol(ser)
 
